@@ -181,6 +181,38 @@ def case_peak_2d(ctx, nf, nd, layout, band):
     ctx.reach("D-IDX.2d")
 
 
+def case_peak_2d_layout(ctx, nf, nd, dgrid, dir_major=False):
+    """2D spectra: the peak is located on e(f) = sum over directions of E dtheta (the spectrum's own wrapped bin
+    widths), whatever the direction grid (also outside [0,360)) and whatever the storage order of the frequency and
+    direction dimensions; peak frequency is the grid frequency there"""
+    C.shim_modules(ctx)
+    from ocean_science_utilities.wavespectra.spectrum import create_2d_spectrum
+    f = C.freq_grid(ctx, "nonuniform0", nf + 1)[1:]
+    d = C.dir_grid(ctx, dgrid, nd)
+    nt = 2
+    E = ctx.reals("E", (nt, nf, nd))
+    for x in E.flat:
+        ctx.assume(ctx.le(0, x))
+    t = np.array([C.T0 + 3600 * i for i in range(nt)])
+    if dir_major:
+        s = create_2d_spectrum(f, d, np.transpose(E, (0, 2, 1)).copy(), t, np.arange(nt) * 1.0, np.arange(nt) * 2.0,
+                               depth=np.full(nt, np.inf), dims=("time", "direction", "frequency"))
+    else:
+        s = create_2d_spectrum(f, d, E, t, np.arange(nt) * 1.0, np.arange(nt) * 2.0, depth=np.full(nt, np.inf))
+    w = [(d[(j + 1) % nd] + (360 if j == nd - 1 else 0)) - d[j] for j in range(nd)]
+    eref = [[sum(E[p, i, j] * w[j] for j in range(nd)) for i in range(nf)] for p in range(nt)]
+    idxv = C.values(ctx.noraise("D-IDX.raise", s.peak_index))
+    pf = C.values(ctx.noraise("D-IDX.raise", s.peak_frequency))
+    ctx.reach("D-IDX.2d")
+    idx = list(range(nf))
+    for p in range(nt):
+        i = int(idxv[p])
+        pos = ctx.Or(*[ctx.lt(0, eref[p][j]) for j in idx])
+        ctx.check(ctx.implies(pos, _first_max_claim(ctx, eref[p], idx, i)), "D-IDX.2d",
+                  info=dict(spectrum=p, returned=i, what="first maximum of sum_theta E dtheta"))
+        ctx.check(ctx.eq(pf[p], f[i]), "D-AT.freq", info=dict(spectrum=p))
+
+
 def cases(tier):
     cs = []
     q = tier == "quick"
@@ -206,6 +238,9 @@ def cases(tier):
             add("case_peak_1d", "peak_nan" + "".join(map(str, mask)), nf=3, grid="uniform", layout="scalar",
                 band="band", nanmask=list(mask))
     add("case_peak_2d", "peak2d_nf3_nd3", nf=3, nd=3, layout="scalar", band="band", opts=dict(weight=30))
+    add("case_peak_2d_layout", "peak2d_dirmajor_nf3_nd3_nonuniform", nf=3, nd=3, dgrid="nonuniform", dir_major=True,
+        opts=dict(weight=30))
+    add("case_peak_2d_layout", "peak2d_nf2_nd4_uniform_neg", nf=2, nd=4, dgrid="uniform_neg", opts=dict(weight=30))
     if not q:
         add("case_peak_2d", "peak2d_nf3_nd4_time", nf=3, nd=4, layout="time", band="fmin", opts=dict(weight=100))
     return cs
